@@ -676,7 +676,9 @@ impl LineBuffer {
                 } else {
                     0
                 };
-                let column = layout.width(&self.buf[line_start..self.pos]) + offset;
+                let column = layout
+                    .width(&self.buf[line_start..self.pos])
+                    .saturating_add(offset);
                 let mut dest_start = self.pos + off + 1;
                 let mut dest_end = self.buf[dest_start..]
                     .find('\n')
